@@ -125,10 +125,11 @@ check(
 check(
     "C18",
     "other",
-    "symbolic-file-system verification: the real SourceFinder (crawl_up, find_sources_in_dir) and FindModuleCache (find_module with verify_module / namespace near-misses) run against a stub FileSystemCache whose existence answers are z3 booleans under file-system sanity constraints, so the solver explores every directory layout (names {xa,xb}, .py/.pyi/__init__ files, depth 2/3, namespace_packages and explicit_package_bases symbolic) that the two implementations can distinguish. Obligations: the module name assigned to a named file resolves, over the derived root, to that file or a documented shadow; two files under one root get the same module name only as a documented pair; directory form and file form assign the same (module, base).",
+    "symbolic-file-system verification: the real SourceFinder (crawl_up, find_sources_in_dir) and FindModuleCache (find_module with verify_module / namespace near-misses) run against a stub FileSystemCache whose existence answers are z3 booleans under file-system sanity constraints, so the solver explores every directory layout (names {xa,xb}, .py/.pyi/__init__ files, depth 2 below the root (depth 3 was tried as the thorough tier and does not finish within hours, so no thorough command is registered), namespace_packages and explicit_package_bases symbolic) that the two implementations can distinguish. Obligations: the module name assigned to a named file resolves, over the derived root, to that file or a documented shadow; two files under one root get the same module name only as a documented pair; directory form and file form assign the same (module, base).",
     "trusted: z3; sanity model of the file system (no symlinks, case-sensitive); documented shadowing allowed; -p/-m forms, typeshed and site-packages outside",
     "symbolic execution of real Python code over a symbolic file system (z3-decided existence answers), partitioned over 14 processes",
     "DESIGN.md 4/C18",
+    thorough=False,
 )
 
 check(
